@@ -74,9 +74,54 @@ def exc_where(exc):
     return last
 
 
+# ---- spelling of path arguments: the same folder / file can be named in many ways on a command line
+SPELL = {"rng": None, "root": 0.3, "sf": 0.25}
+_ROOT_CMDS = {"create", "verify", "diff", "info", "flatten"}
+
+
+def _respell(cmd, argv, cwd):
+    rng = SPELL["rng"]
+    if rng is None or cwd is not None or cmd not in _ROOT_CMDS:
+        return argv, cwd
+    argv = list(argv)
+    for i, a in enumerate(argv):
+        if i > 0 and argv[i - 1] == "-sf" and os.path.isabs(a) and os.path.lexists(a) and rng.random() < SPELL["sf"]:
+            base = argv[0].rstrip("/") if argv and os.path.isabs(argv[0]) else None
+            if not base or not a.startswith(base + "/"):
+                continue
+            parts = a.split("/")
+            lo = len(base.split("/"))  # only below the root folder: everything above belongs to other cases / processes
+            j = rng.randrange(lo, len(parts))
+            k = rng.choice(["dot", "slash", "updown"])
+            if k == "dot":
+                parts.insert(j, ".")
+            elif k == "slash":
+                parts.insert(j, "")
+            else:
+                parent = "/".join(parts[:j])
+                sib = [n for n in os.listdir(parent) if os.path.isdir(os.path.join(parent, n)) and not os.path.islink(os.path.join(parent, n))] if os.path.isdir(parent) else []
+                if sib:
+                    parts[j:j] = [rng.choice(sorted(sib)), ".."]
+            argv[i] = "/".join(parts)
+    if argv and os.path.isabs(argv[0]) and os.path.isdir(argv[0]) and not argv[0].endswith("/") and rng.random() < SPELL["root"]:
+        root = argv[0]
+        k = rng.choice(["slash", "rel", "dotslash", "dot"])
+        if k == "slash":
+            argv[0] = root + "/"
+        elif k == "rel":
+            b = os.path.basename(root)
+            argv[0], cwd = ("./" + b if b.startswith("-") else b), os.path.dirname(root)  # a leading dash would be read as an option
+        elif k == "dotslash":
+            argv[0], cwd = "./" + os.path.basename(root) + "/", os.path.dirname(root)
+        else:
+            argv[0], cwd = ".", root
+    return argv, cwd
+
+
 def run(cmd, argv, cwd=None):
     r = _load()
     argv = [str(a) for a in argv]
+    argv, cwd = _respell(cmd, argv, cwd)
     old = os.getcwd()
     if cwd:
         os.chdir(cwd)
